@@ -148,8 +148,8 @@ def Parser.app (p : Parser) (code : Nat) (typ : Option Nat) : Option AppInfo :=
      | some a => some a
      | none =>
        match alookup code p.appcode with
-       | some a => if a.typ = 0 ∨ a.typ = t then some a else none
-       | none => none)
+       | some a => if a.typ = 0 ∨ a.typ = t then some a else alookup (code, 0) p.apptype
+       | none => alookup (code, 0) p.apptype)
   | none => alookup code p.appcode
 
 end DV
